@@ -222,8 +222,33 @@ def dup_label_games(games, rng, count):
     (the rules ask for a string per action, not for distinct strings): the solver works with transitions, so both stay separate
     moves; the oracle that keys on labels is switched off for them (guard 'any'), model and predicates are not"""
     out = []
-    pool = [gm for gm in games if any(p != "Probabilistic" and len(row) >= 2 and row[0][1] != row[1][1]
-                                      for p, row in zip(gm[0]["players"], gm[0]["transition_list"]))]
+    def acyclic(g):
+        # no cycle except absorbing self-loops: with two moves under one label Player 1 keeps moves it would otherwise have cut,
+        # and on a cyclic game that can leave a rewarded loop without exit in the conditioned game (the reward loop then
+        # diverges, as for any non-stopping game: K4) - such descriptions are not inputs of the termination claims
+        n = len(g["players"])
+        succ = [[d for _, d in row if d != s] for s, row in enumerate(g["transition_list"])]
+        color = [0] * n
+        for r0 in range(n):
+            if color[r0]:
+                continue
+            stack = [(r0, iter(succ[r0]))]
+            color[r0] = 1
+            while stack:
+                v, it = stack[-1]
+                nxt = next(it, None)
+                if nxt is None:
+                    color[v] = 2
+                    stack.pop()
+                elif color[nxt] == 1:
+                    return False
+                elif color[nxt] == 0:
+                    color[nxt] = 1
+                    stack.append((nxt, iter(succ[nxt])))
+        return True
+    pool = [gm for gm in games if not gm[1].get("patient") and acyclic(gm[0])
+            and any(p != "Probabilistic" and len(row) >= 2 and row[0][1] != row[1][1]
+                    for p, row in zip(gm[0]["players"], gm[0]["transition_list"]))]
     rng.shuffle(pool)
     for g, m in pool[:count]:
         tl = [list(r) for r in g["transition_list"]]
